@@ -37,6 +37,7 @@ import Csvq.Lemmas.Csv
 import Csvq.Lemmas.CsvRect
 import Csvq.Lemmas.Ltsv
 import Csvq.Lemmas.Fixed
+import Csvq.Lemmas.JsonTable
 namespace Csvq.C02
 open Csvq.Csv
 
@@ -722,5 +723,215 @@ example :
   refine ⟨by decide, rfl, rfl⟩
 
 end F
+
+/-! ## JSON and JSON Lines
+
+  Model: Csvq.Model.Json.  Numbers are opaque atoms: `canon lit` is what strconv makes of a number
+  literal (`ParseFloat` then `FormatFloat 'f'`), a parameter the theorems quantify over; `AtomOK canon v`
+  says that the decimal text the writer emits for a number cell is a fixed point of `canon`.
+
+  Proved for ALL code-point strings / tables:
+    `json_unescape_escape`     `Unescape (Escape… s) = s` for the three escape types — no exception;
+    `json_string_token`        the scanner finds the end of an escaped string and the token is `s` again —
+                               for HexDigits / AllWithHexDigits always, for Backslash unless `s` ends in a
+                               backslash (`json_trailing_backslash_counterexample`, F27);
+    `json_value_roundtrip`     `ConvertToValue (ParseValueToStructure v) = normVal v`, and
+    `json_value_fixed`         the exact classes it is the identity on (NULL, String, Float, Boolean):
+                               Integer → Float of the same text, Datetime → String, Ternary → Boolean /
+                               NULL, NaN / ±Inf → NULL;
+    `json_table_roundtrip`,    on TOKENS: what the compact writer emits for a table with distinct (flat)
+    `jsonl_table_roundtrip`    column names and at least one record parses back to `canonTable`
+                               (same header, same records, every cell the text `canonVal` of its value);
+    `json_rectangular`,        for ALL input texts (characters, not tokens): every record of the loaded
+    `jsonl_rectangular`        table has header-many fields;
+    `json_no_shift`.
+  The step from characters to tokens is proved for string tokens (`json_string_token`); for punctuation,
+  literals and number atoms it is covered by the correspondence streams jenc / jdec (model = real
+  encoder bytes, model = real loader on generated and mutated texts), as are pretty printing and the
+  embedding step.  Counter-witnesses for what the real code does not round-trip:
+    `json_trailing_backslash_counterexample` (F27), `json_empty_table_counterexample` (F27),
+    `json_embedded_text_counterexample` (NEW: a String whose text is a JSON array / object is written as
+    that array / object and comes back re-spelled: `[1, 2]` → `[1,2]`).
+  Integers beyond 2^53 (F27 large_integer) are outside the model: the atom the harness supplies is what
+  `Integer.Encode` (through float64) wrote. -/
+
+namespace J
+open Csvq.Json
+
+/-- **Unescape ∘ Escape = id**, every escape type, every string of code points. -/
+theorem json_unescape_escape (t : Esc) (s : List Char) : unescape (escape t s) = s :=
+  Json.unescape_escape t s
+
+/-- **String token**: after the opening quotation mark the scanner takes exactly the escaped text, and
+    unescaping gives `s` back — for `Escape` (Backslash) only if `s` does not end in a backslash. -/
+theorem json_string_token (t : Esc) (s rest : List Char) (h : t = .backslash → s.getLast? ≠ some '\\') :
+    scanStr (escape t s ++ '"' :: rest) = some (escape t s, rest) ∧ unescape (escape t s) = s :=
+  ⟨scanStr_escape t s rest h, Json.unescape_escape t s⟩
+
+/-- F27: the text `a\` is written `"a\\"`; the scanner takes the closing quotation mark for an escaped
+    one and runs to the end of the input. -/
+theorem json_trailing_backslash_counterexample :
+    escape .backslash ['a', '\\'] = ['a', '\\', '\\'] ∧
+    scanStr (escape .backslash ['a', '\\'] ++ ['"', ',']) = none := by
+  refine ⟨rfl, rfl⟩
+
+/-- what a value is after `ParseValueToStructure` and `ConvertToValue` -/
+def normVal (canon : List Char → Option (List Char)) : JVal → JVal
+  | .null => .null
+  | .str s => .str s
+  | .int a => .flt (numText canon a)
+  | .flt a => .flt (numText canon a)
+  | .nonfinite => .null
+  | .bool b => .bool b
+  | .tern none => .null
+  | .tern (some b) => .bool b
+  | .dt s => .str s
+
+/-- **Value round trip**, the exact image. -/
+theorem json_value_roundtrip (canon : List Char → Option (List Char)) (v : JVal) :
+    toValue canon (toStructure v) = normVal canon v := by
+  cases v with
+  | tern t => cases t <;> rfl
+  | _ => rfl
+
+/-- … which is the value itself exactly for NULL, String, Float (with a stable decimal text) and
+    Boolean. -/
+theorem json_value_fixed (canon : List Char → Option (List Char)) (v : JVal) (h : AtomOK canon v) :
+    toValue canon (toStructure v) = v ↔
+      (match v with | .null => True | .str _ => True | .flt _ => True | .bool _ => True | _ => False) := by
+  rw [json_value_roundtrip]
+  cases v with
+  | null => simp [normVal]
+  | str s => simp [normVal]
+  | int a => simp [normVal]
+  | flt a => simp only [AtomOK] at h; simp [normVal, numText, h]
+  | nonfinite => simp [normVal]
+  | bool b => simp [normVal]
+  | tern t => cases t <;> simp [normVal]
+  | dt s => simp [normVal]
+
+/-- what the format + reader can spell: distinct column names, rectangular, at least one record (an
+    empty table is written `[]` / as nothing and loses its header), stable number texts -/
+def JsonSpellable (canon : List Char → Option (List Char)) (tb : Json.Table) : Prop :=
+  tb.header.Nodup ∧ (∀ r ∈ tb.rows, r.length = tb.header.length) ∧ tb.rows ≠ [] ∧
+  ∀ r ∈ tb.rows, ∀ v ∈ r, AtomOK canon v
+
+def tableJS (tb : Json.Table) : JS := .arr (tb.rows.map (rowObj tb.header))
+
+/-- **Table round trip, JSON** (tokens): the tokens of the array of one object per record parse back
+    to the same header, the same number of records and fields, every cell `canonVal` of its value. -/
+theorem json_table_roundtrip (canon : List Char → Option (List Char)) (tb : Json.Table)
+    (hs : JsonSpellable canon tb) :
+    decodeJsonToks canon (toksS (tableJS tb)) = .ok (canonTable tb) := by
+  obtain ⟨hnd, hl, hne, ha⟩ := hs
+  have hobjs : tb.rows.map (rowObj tb.header)
+      = (tb.rows.map fun r => tb.header.zip (r.map toStructure)).map JS.obj := by
+    simp [List.map_map, Function.comp, rowObj]
+  unfold decodeJsonToks tableJS
+  rw [hobjs, parseToks_flat_array _ tb.header.length (by simpa using hne)
+    (by intro ms hms; obtain ⟨r, _, rfl⟩ := List.mem_map.mp hms; exact rowObj_flat _ r)
+    (by intro ms hms; obtain ⟨r, hr, rfl⟩ := List.mem_map.mp hms; simp [hl r hr])]
+  simp only
+  have hm : (List.map JS.obj (tb.rows.map fun r => tb.header.zip (r.map toStructure))).mapM membersOf
+      = some (tb.rows.map fun r => tb.header.zip (r.map toStructure)) := by
+    generalize (tb.rows.map fun r => tb.header.zip (r.map toStructure)) = objs
+    induction objs with
+    | nil => rfl
+    | cons o os ih => simp [List.mapM_cons, membersOf, ih]
+  rw [hm]
+  simp only
+  rw [tableOf_rows canon tb hnd hl hne ha]
+
+/-- **Table round trip, JSON Lines** (tokens): one object per line. -/
+theorem jsonl_table_roundtrip (canon : List Char → Option (List Char)) (tb : Json.Table)
+    (hs : JsonSpellable canon tb) :
+    decodeJsonlToks canon (tb.rows.map fun r => toksS (rowObj tb.header r)) = .ok (canonTable tb) := by
+  obtain ⟨hnd, hl, hne, ha⟩ := hs
+  have hlines : (tb.rows.map fun r => toksS (rowObj tb.header r))
+      = (tb.rows.map fun r => tb.header.zip (r.map toStructure)).map fun ms => toksS (.obj ms) := by
+    simp [List.map_map, Function.comp, rowObj]
+  unfold decodeJsonlToks
+  rw [hlines, objsOfLines_rows _ (by
+    intro ms hms; obtain ⟨r, _, rfl⟩ := List.mem_map.mp hms; exact rowObj_flat _ r)]
+  simp only
+  rw [tableOf_rows canon tb hnd hl hne ha]
+
+/-- **Rectangular, for ALL input texts** (JSON): whatever the characters are, if the loader accepts
+    them every record has as many fields as the header (missing members are NULL). -/
+theorem json_rectangular (canon : List Char → Option (List Char)) (inp : List Char) (t : DTable)
+    (h : decodeJson canon inp = .ok t) : ∀ row ∈ t.rows, row.length = t.header.length := by
+  unfold decodeJson at h
+  cases hl : lex canon inp with
+  | error e => rw [hl] at h; cases h
+  | ok ts =>
+    rw [hl] at h
+    simp only [decodeJsonToks] at h
+    split at h
+    · split at h
+      · injection h with h; subst h; exact tableOf_rectangular canon _
+      · cases h
+    · cases h
+
+/-- **Rectangular, for ALL input texts** (JSON Lines). -/
+theorem jsonl_rectangular (canon : List Char → Option (List Char)) (inp : List Char) (t : DTable)
+    (h : decodeJsonl canon inp = .ok t) : ∀ row ∈ t.rows, row.length = t.header.length := by
+  unfold decodeJsonl at h
+  cases hl : lexLines canon (splitLines [] inp) with
+  | error e => rw [hl] at h; cases h
+  | ok tss =>
+    rw [hl] at h
+    simp only [decodeJsonlToks] at h
+    split at h
+    · injection h with h; subst h; exact tableOf_rectangular canon _
+    · cases h
+
+/-- **No shift** (JSON and JSON Lines): position (i, j) of what is read back is `canonVal` of the value
+    at (i, j); the header is the header. -/
+theorem json_no_shift (canon : List Char → Option (List Char)) (tb : Json.Table) (hs : JsonSpellable canon tb) :
+    ∃ d, decodeJsonToks canon (toksS (tableJS tb)) = .ok d ∧
+      decodeJsonlToks canon (tb.rows.map fun r => toksS (rowObj tb.header r)) = .ok d ∧
+      d.header = tb.header ∧ d.rows.length = tb.rows.length ∧
+      ∀ i j : Nat, (d.rows[i]?.bind fun (r : List DCell) => r[j]?)
+        = (tb.rows[i]?.bind fun (r : List JVal) => r[j]?).map canonVal := by
+  refine ⟨canonTable tb, json_table_roundtrip canon tb hs, jsonl_table_roundtrip canon tb hs, rfl,
+    by simp [canonTable], ?_⟩
+  intro i j
+  simp only [canonTable, List.getElem?_map]
+  cases tb.rows[i]? with
+  | none => rfl
+  | some r => simp [List.getElem?_map]
+
+/-- F27: a table without records is written `[]`; the header is gone. -/
+theorem json_empty_table_counterexample :
+    decodeJsonToks (fun a => some a) (toksS (tableJS ⟨[['a'], ['b']], []⟩)) = .ok ⟨[], []⟩ := by
+  rfl
+
+/-- NEW: the String `[1, 2]` is written as the array `[1,2]` and comes back as the text `[1,2]`
+    (characters, through the whole writer and reader). -/
+theorem json_embedded_text_counterexample :
+    let canon : List Char → Option (List Char) := fun a => some a
+    let tb : Json.Table := ⟨[['a']], [[.str ['[', '1', ',', ' ', '2', ']']]]⟩
+    encodeJson .backslash canon none tb = ['[', '{', '"', 'a', '"', ':', '[', '1', ',', '2', ']', '}', ']'] ∧
+    decodeJson canon ['[', '{', '"', 'a', '"', ':', '[', '1', ',', '2', ']', '}', ']'] = .ok ⟨[['a']], [[some ['[', '1', ',', '2', ']']]]⟩ := by
+  refine ⟨rfl, rfl⟩
+
+-- non-vacuity, characters through the whole writer and reader: quotation marks, a backslash inside,
+-- a line break, every character as \uXXXX under AllWithHexDigits, pretty printing, NULL, numbers,
+-- booleans
+set_option maxRecDepth 16384 in
+example :
+    let canon : List Char → Option (List Char) := fun a => some a
+    let tb : Json.Table := ⟨[['k', '"', '1'], ['n']], [[.str ['x', '"', 'y', '\\', 'z', '\n'], .int ['4', '2']], [.null, .bool true], [.dt ['2', '0', '2', '0', '-', '0', '1', '-', '0', '2', 'T', '0', '3', ':', '0', '4', ':', '0', '5', 'Z'], .tern none]]⟩
+    JsonSpellable canon tb ∧
+    decodeJson canon (encodeJson .backslash canon none tb) = .ok (canonTable tb) ∧
+    decodeJson canon (encodeJson .all canon (some .crlf) tb) = .ok (canonTable tb) ∧
+    decodeJsonl canon (encodeJsonl .hex canon .lf tb) = .ok (canonTable tb) := by
+  refine ⟨?_, rfl, rfl, rfl⟩
+  unfold JsonSpellable
+  refine ⟨by decide, by decide, by decide, ?_⟩
+  intro r _ v _
+  cases v <;> simp [AtomOK]
+
+end J
 
 end Csvq.C02
